@@ -34,54 +34,59 @@ Lemma debit_amount_pos c s cl s' v evs a : wf_host (c_host c) -> core_inv (tk s)
 Proof.
   intros W C E L. destruct (exec_balances _ _ _ _ _ _ W C E) as (_ & M & _).
   destruct (evs_move evs) as [[f to] amt] eqn:Em.
-  destruct (moved_decrease _ _ _ _ _ _ M L) as [-> Pa]. eauto.
+  destruct (moved_decrease _ _ _ _ _ _ M L) as (-> & Pa & _). eauto.
 Qed.
 
 (* C02_debit_needs_auth *)
+Lemma is_rwa_flav c : is_rwa c = true -> c_flav c = FRwa.
+Proof. unfold is_rwa. destruct (c_flav c); congruence. Qed.
+
+Ltac split_andb :=
+  repeat match goal with H : _ && _ = true |- _ => apply andb_true_iff in H; destruct H end.
+
 Lemma debit_needs_auth : forall c s cl s' v evs a, wf_cfg c = true -> state_inv s ->
   exec c s cl = Ok (s', v, evs) -> balance (tk s') a < balance (tk s) a ->
+  let debit := balance (tk s) a - balance (tk s') a in
   match cl with
-  | Transfer au f _ _ _ | Burn au f _ => a = f /\ has_auth au a = true
+  | Transfer au f _ _ amt | Burn au f amt => a = f /\ has_auth au a = true /\ debit <= amt
   | TransferFrom au sp f _ amt | BurnFrom au sp f amt =>
-      a = f /\ has_auth au sp = true /\ spender_path s s' f sp amt
-  | VWithdraw au _ _ o op => a = o /\ has_auth au op = true /\ (op = o \/ spender_path s s' o op v)
-  | VRedeem au sh _ o op => a = o /\ has_auth au op = true /\ (op = o \/ spender_path s s' o op sh)
-  | RForcedTransfer _ _ _ | RBurn _ _ | RRecover _ _ => True
+      a = f /\ has_auth au sp = true /\ spender_path s s' f sp amt /\ debit <= amt
+  | VWithdraw au _ _ o op => a = o /\ has_auth au op = true /\ (op = o \/ spender_path s s' o op v) /\ debit <= v
+  | VRedeem au sh _ o op => a = o /\ has_auth au op = true /\ (op = o \/ spender_path s s' o op sh) /\ debit <= sh
+  | RForcedTransfer f _ amt | RBurn f amt => c_flav c = FRwa /\ a = f /\ debit <= amt
+  | RRecover old _ => c_flav c = FRwa /\ a = old
   | _ => False
   end.
 Proof.
-  intros c s cl s' v evs a W [C _] E L.
+  intros c s cl s' v evs a W [C _] E L. cbn zeta.
   pose proof (wf_cfg_host _ W) as Wh.
   destruct (model_step_ok c Wh ghost0 s cl s' v evs C E) as (D & _).
   specialize (D a). unfold chk_debit in D. cbn [v_bal state_view] in D.
   assert (Lb : (balance (tk s') a <? balance (tk s) a) = true) by (apply Z.ltb_lt; exact L).
   rewrite Lb in D.
-  (* the amount moved is positive *)
   destruct (debit_amount_pos _ _ _ _ _ _ _ Wh C E L) as (to & amt & Em & Pa).
   pose proof (exec_spec _ _ _ _ _ _ E) as (Sp & _).
-  destruct cl; cbn [debit_ok] in D; try discriminate; auto; unfold call_spec in Sp.
-  - (* Transfer *) apply andb_true_iff in D. destruct D as [D1 D2]. apply N.eqb_eq in D1. subst. auto.
-  - (* TransferFrom *)
-    apply andb_true_iff in D. destruct D as [D D3]. apply andb_true_iff in D. destruct D as [D1 D2].
-    apply N.eqb_eq in D1. subst. split; auto. split; auto.
+  assert (DL : forall x, debit_le (state_view s) (state_view s') a x = true -> balance (tk s) a - balance (tk s') a <= x).
+  { intros x Hx. unfold debit_le in Hx. cbn [v_bal state_view] in Hx. apply Z.leb_le. exact Hx. }
+  destruct cl; cbn [debit_ok] in D; try discriminate; unfold call_spec in Sp; split_andb;
+    repeat match goal with H : N.eqb _ _ = true |- _ => apply N.eqb_eq in H; subst end;
+    repeat match goal with H : debit_le _ _ _ _ = true |- _ => apply DL in H end;
+    repeat match goal with H : is_rwa _ = true |- _ => apply is_rwa_flav in H end;
+    auto.
+  - (* TransferFrom *) split; auto. split; auto. split; auto.
     destruct Sp as (_ & _ & -> & _). cbn in Em. injection Em; intros; subst.
     apply spent_ok_prop; auto. apply C.
-  - (* Burn *) apply andb_true_iff in D. destruct D as [D1 D2]. apply N.eqb_eq in D1. subst. auto.
-  - (* BurnFrom *)
-    apply andb_true_iff in D. destruct D as [D D3]. apply andb_true_iff in D. destruct D as [D1 D2].
-    apply N.eqb_eq in D1. subst. split; auto. split; auto.
+  - (* BurnFrom *) split; auto. split; auto. split; auto.
     destruct Sp as (_ & _ & -> & _). cbn in Em. injection Em; intros; subst.
     apply spent_ok_prop; auto. apply C.
-  - (* VWithdraw *)
-    apply andb_true_iff in D. destruct D as [D D3]. apply andb_true_iff in D. destruct D as [D1 D2].
-    apply N.eqb_eq in D1. subst. split; auto. split; auto.
-    apply orb_true_iff in D3. destruct D3 as [D3|D3]; [left; apply N.eqb_eq in D3; auto|right].
+  - (* VWithdraw *) split; auto. split; auto. split; auto.
+    match goal with H : _ || _ = true |- _ => apply orb_true_iff in H; destruct H as [H|H];
+      [left; apply N.eqb_eq in H; auto|right] end.
     destruct Sp as (_ & _ & ->). cbn in Em. injection Em; intros; subst.
     apply spent_ok_prop; auto. apply C.
-  - (* VRedeem *)
-    apply andb_true_iff in D. destruct D as [D D3]. apply andb_true_iff in D. destruct D as [D1 D2].
-    apply N.eqb_eq in D1. subst. split; auto. split; auto.
-    apply orb_true_iff in D3. destruct D3 as [D3|D3]; [left; apply N.eqb_eq in D3; auto|right].
+  - (* VRedeem *) split; auto. split; auto. split; auto.
+    match goal with H : _ || _ = true |- _ => apply orb_true_iff in H; destruct H as [H|H];
+      [left; apply N.eqb_eq in H; auto|right] end.
     destruct Sp as (_ & _ & ->). cbn in Em. injection Em; intros; subst.
     apply spent_ok_prop; auto. apply C.
 Qed.
